@@ -197,6 +197,18 @@ func evalC20Arena(w *h.Worker, keys []string, opt h.Opt4) *h.Viol {
 
 // evalC20Load: the load and marshal clauses on one stream.
 func evalC20Load(w *h.Worker, stream []byte, complete bool, viaProto bool, qs []string) *h.Viol {
+	// the very first Marshal results of a new instance: each returned slice is
+	// overwritten at once, the next call must still produce the original bytes
+	// (nothing has read the instance before, so a result that the instance keeps
+	// from its first serialisation is the one the caller scribbles over)
+	{
+		st := startInstance("new")
+		if err, p := loadInto(st, append([]byte{}, stream...), viaProto); p == nil && err == nil {
+			if v := firstMarshals(w, st); v != nil {
+				return v
+			}
+		}
+	}
 	for pi := 0; pi < 3; pi++ {
 		buf := append([]byte{}, stream...)
 		st := startInstance("new")
@@ -245,6 +257,35 @@ func evalC20Load(w *h.Worker, stream []byte, complete bool, viaProto bool, qs []
 		if dig3 != dig {
 			return &h.Viol{Sig: "marshal-output-aliased", Msg: fmt.Sprintf("overwriting the bytes returned by Marshal changes the trie's reachable state (pattern %d)", pi)}
 		}
+	}
+	return nil
+}
+
+// firstMarshals calls Marshal / proto.Marshal / proto.Size on an instance that
+// nothing has read yet and overwrites every returned slice immediately.
+func firstMarshals(w *h.Worker, st *trie.SlimTrie) *h.Viol {
+	var orig []byte
+	for k := 0; k < 4; k++ {
+		var out []byte
+		var err error
+		if k%2 == 0 {
+			out, err = st.Marshal()
+		} else {
+			out, err = proto.Marshal(st)
+		}
+		w.Trans++
+		if err != nil {
+			return nil
+		}
+		if k == 0 {
+			orig = append([]byte{}, out...)
+		} else if !bytes.Equal(out, orig) {
+			return &h.Viol{Sig: "marshal-output-aliased", Msg: fmt.Sprintf("Marshal call #%d on a new instance differs from call #1 after the caller overwrote the bytes the earlier calls returned (first difference at byte %d)", k+1, firstDiff(out, orig))}
+		}
+		if n := proto.Size(st); n != len(orig) {
+			return &h.Viol{Sig: "marshal-output-aliased", Msg: fmt.Sprintf("proto.Size = %d after the caller overwrote the bytes Marshal returned, the stream has %d bytes", n, len(orig))}
+		}
+		copy(out, fillPatterns(len(out), reflect.ValueOf(out).Pointer())[k%3])
 	}
 	return nil
 }
@@ -341,6 +382,13 @@ func runC20(r *h.Run) {
 			if c.Opt.D >= 0 && c.Opt.I >= 0 && c.Opt.L >= 0 && c.Opt.C >= 0 && (c.Opt.C == 0 || (c.Opt.I == 0 && c.Opt.L == 0)) {
 				b, p := h.Build(c)
 				if p == nil && b.Err == nil {
+					// the first serialisations of the BUILT instance, each result overwritten at once
+					if v := firstMarshals(w, b.ST); v != nil {
+						v.Msg += " (built instance) | " + c.Brief()
+						v.Kind, v.Case, v.Unit = "c20", c20Case{CaseJSON: c.JSON(), Layout: "current"}, w.Unit()
+						w.Report(*v)
+						return false
+					}
 					stream, err := b.ST.Marshal()
 					if err == nil {
 						// the loader must use the same encoder as the builder
@@ -426,6 +474,13 @@ func runC20(r *h.Run) {
 // evalC20LoadEnc is evalC20Load with the encoder of the built trie.
 func evalC20LoadEnc(w *h.Worker, stream []byte, b *h.Built, viaProto bool, qs []string, pats []int) *h.Viol {
 	complete := b.Opt.IsComplete()
+	if st, err := trie.NewSlimTrie(b.Encoder, nil, nil); err == nil {
+		if err, p := loadInto(st, append([]byte{}, stream...), viaProto); p == nil && err == nil {
+			if v := firstMarshals(w, st); v != nil {
+				return v
+			}
+		}
+	}
 	for _, pi := range pats {
 		buf := append([]byte{}, stream...)
 		st, err := trie.NewSlimTrie(b.Encoder, nil, nil)
